@@ -98,24 +98,24 @@ std::vector<uint256> LoadWalletBase(ChainSim& sim, int n)
     static std::vector<std::shared_ptr<const CBlock>> cache; // deterministic blocks over genesis, built once per process
     std::vector<uint256> out;
     for (int i = 0; i < n; ++i) {
-        if (size_t(i) < cache.size()) {
-            sim.Register(cache[i]);
-            auto d = sim.Deliver(cache[i]);
-            assert(d.processed);
-        } else {
+        if (size_t(i) >= cache.size()) {
             BlockSpec s;
             s.prev = sim.TipHash();
             int height = i + 1;
             if (height >= 5 && height <= 7) s.coinbase_spk = WalletSimFixedScript(OutputType::BECH32, /*internal=*/false, height - 5);
             s.extra_nonce = 0x57; // distinct from ChainSim::LoadBase blocks
-            auto b = sim.Build(s);
-            auto d = sim.Deliver(b);
-            assert(d.processed);
-            cache.push_back(b);
+            cache.push_back(sim.Build(s));
+        } else {
+            sim.Register(cache[i]);
         }
+        // no per-block SyncSignals (ChainSim::Deliver): with scheduler-thread signals that is one thread hand-over per block
+        bool new_block = false;
+        bool processed = sim.chainman().ProcessNewBlock(cache[i], /*force_processing=*/true, /*min_pow_checked=*/true, &new_block);
+        assert(processed);
         assert(sim.TipHash() == cache[i]->GetHash());
         out.push_back(cache[i]->GetHash());
     }
+    sim.SyncSignals();
     return out;
 }
 
